@@ -108,8 +108,8 @@ impl Engine for C03 {
     }
     fn runs(&self, tier: Tier) -> u64 {
         match tier {
-            Tier::Quick => 150_000,
-            Tier::Thorough => 4_000_000,
+            Tier::Quick => 800_000,
+            Tier::Thorough => 8_000_000,
         }
     }
 
